@@ -752,3 +752,53 @@ Qed.
 
 Lemma runsN_app_nil {A} n (T : bytes -> Prop) (m : M A) s b b' v : runsN n T m (s ++ []) b b' v -> runsN n T m s b b' v.
 Proof. rewrite app_nil_r. auto. Qed.
+
+(* ---- the same with a predicate on the value (for results that carry a position) ------------------------------------------- *)
+
+Definition runsQ {A} (T : bytes -> Prop) (m : M A) (s : bytes) (b b' : bool) (Q : A -> Prop) : Prop :=
+  forall r t, r_rest r = s ++ t -> r_paren r = b -> wfr r -> T t ->
+  exists r' v, m r = Ok (v, r') /\ post r r' s t b' /\ Q v.
+
+Lemma runsQ_of_runs {A} (T : bytes -> Prop) (m : M A) s b b' v (Q : A -> Prop) : runs T m s b b' v -> Q v -> runsQ T m s b b' Q.
+Proof. intros H HQ r t E P W Ht. destruct (H r t E P W Ht) as (r' & F & Po). eauto. Qed.
+
+Lemma runsQ_eq {A} (T : bytes -> Prop) (m m' : M A) s b b' Q : (forall r, m r = m' r) -> runsQ T m' s b b' Q -> runsQ T m s b b' Q.
+Proof. intros Hm H r t E P W Ht. rewrite Hm. apply H; assumption. Qed.
+
+Lemma runsQ_getpos {A} (T : bytes -> Prop) (f : pos -> M A) s b b' Q :
+  (forall p, runsQ T (f p) s b b' Q) -> runsQ T (bindM getpos f) s b b' Q.
+Proof. intros H r t E P W Ht. unfold bindM, getpos. apply H; assumption. Qed.
+
+Lemma runs_bind_Q {A B} (T1 T2 : bytes -> Prop) (m : M A) (f : A -> M B) s1 s2 b b1 b2 v1 Q :
+  runs T1 m s1 b b1 v1 -> (forall t, T2 t -> T1 (s2 ++ t)) -> runsQ T2 (f v1) s2 b1 b2 Q ->
+  runsQ T2 (bindM m f) (s1 ++ s2) b b2 Q.
+Proof.
+  intros H1 HT H2 r t E P W Ht. rewrite <- app_assoc in E.
+  destruct (H1 r (s2 ++ t) E P W (HT t Ht)) as (r1 & E1 & P1).
+  pose proof (post_wfr _ _ _ _ _ W E P1) as W1.
+  destruct P1 as (A1 & A2 & A3 & A4).
+  destruct (H2 r1 t A1 A2 W1 Ht) as (r2 & v & E2 & P2 & HQ).
+  exists r2, v. unfold bindM. rewrite E1. split; [exact E2|]. split; [|exact HQ].
+  eapply post_trans; [|exact P2]. unfold post. auto.
+Qed.
+
+(* a value-predicate action followed by a plain one *)
+Lemma runsQ_bind {A B} (T1 T2 : bytes -> Prop) (m : M A) (f : A -> M B) s1 s2 b b1 b2 (Q1 : A -> Prop) Q :
+  runsQ T1 m s1 b b1 Q1 -> (forall t, T2 t -> T1 (s2 ++ t)) -> (forall v1, Q1 v1 -> runsQ T2 (f v1) s2 b1 b2 Q) ->
+  runsQ T2 (bindM m f) (s1 ++ s2) b b2 Q.
+Proof.
+  intros H1 HT H2 r t E P W Ht. rewrite <- app_assoc in E.
+  destruct (H1 r (s2 ++ t) E P W (HT t Ht)) as (r1 & v1 & E1 & P1 & HQ1).
+  pose proof (post_wfr _ _ _ _ _ W E P1) as W1.
+  destruct P1 as (A1 & A2 & A3 & A4).
+  destruct (H2 v1 HQ1 r1 t A1 A2 W1 Ht) as (r2 & v & E2 & P2 & HQ).
+  exists r2, v. unfold bindM. rewrite E1. split; [exact E2|]. split; [|exact HQ].
+  eapply post_trans; [|exact P2]. unfold post. auto.
+Qed.
+
+Lemma runs_of_runsQ {A} (T : bytes -> Prop) (m : M A) s b b' v : runsQ T m s b b' (fun x => x = v) -> runs T m s b b' v.
+Proof. intros H r t E P W Ht. destruct (H r t E P W Ht) as (r' & x & F & Po & ->). eauto. Qed.
+
+Lemma bindM_assoc {A B C} (m : M A) (f : A -> M B) (g : B -> M C) r :
+  bindM (bindM m f) g r = bindM m (fun x => bindM (f x) g) r.
+Proof. unfold bindM. destruct (m r) as [[a r']|e|]; reflexivity. Qed.
